@@ -121,10 +121,16 @@ def run_one(ctl: explorer.Ctl, cfg: Dict[str, Any]) -> Dict[str, Any]:
     async def main():
         with seams.patched_open_process(lambda cmd, kw: proc) as pp:
             async with stdio_client(seams.stdio_params()) as (read, write):
-                for (name, mk, exp) in seq:
+                eof_at = cfg.get("stdout_eof_at")
+                for i, (name, mk, exp) in enumerate(seq):
+                    if eof_at == i:
+                        proc.stdout.feed_eof()      # the child closes its stdout only; it keeps reading its stdin
+                        await q.settle()
                     await write.send(mk())
                     if cfg.get("mode") == "step":
                         await q.settle()
+                if eof_at == len(seq):
+                    proc.stdout.feed_eof()
                 await q.settle()
                 info["bytes_before_close"] = bytes(proc.stdin.data)
                 info["closed_before"] = proc.stdin.closed
@@ -138,6 +144,8 @@ def run_one(ctl: explorer.Ctl, cfg: Dict[str, Any]) -> Dict[str, Any]:
     loop.abandon()
     names = [s[0] for s in seq]
     obs: Dict[str, Any] = {"status": status, "items": names, "mode": cfg.get("mode")}
+    if cfg.get("stdout_eof_at") is not None:
+        obs["stdout_eof_at"] = cfg["stdout_eof_at"]
     viol: List[dict] = []
     if status != "ok":
         obs["outcome"] = status
@@ -154,6 +162,9 @@ def run_one(ctl: explorer.Ctl, cfg: Dict[str, Any]) -> Dict[str, Any]:
     lines = lines[:-1]
 
     run_tag: Dict[str, Any] = {}
+    if cfg.get("stdout_eof_at") is not None:
+        at = cfg["stdout_eof_at"]
+        run_tag = {"child_stdout_ended": "before-any-message" if at == 0 else ("after-all-messages" if at >= len(seq) else "between-messages")}
     if cfg.get("part") == "unserialisable-runs":
         longest = cur = 0
         for (_, _, e) in seq:
@@ -661,6 +672,99 @@ def two_connection_configs(tier: str) -> List[Dict[str, Any]]:
     return out
 
 
+# ---------------------------------------------------------------------------
+# pre-serialised strings: pre-framed, pretty-printed, and with runs of blanks / odd spaces / separators inside values
+# ---------------------------------------------------------------------------
+RUN_RAW = "vf.checks.c06:run_raw"
+ODD_VALUE = {"two": "a  b", "three": "a   b", "tab": "a\tb", "tabs": "\t\t", "nbsp": "a b", "ideographic": "a　b",
+             "ls": "a b", "ps": "a b", "nel": "a\u0085b", "mix": "      \u0085　 ", "lead": "  x  "}
+
+
+def _raw_items():
+    plain = {"jsonrpc": "2.0", "id": "raw-1", "method": "tools/call", "params": {"name": "echo", "arguments": {"t": "x y"}}}
+    odd = {"jsonrpc": "2.0", "id": "raw-2", "result": dict(ODD_VALUE)}
+    compact = lambda d: json.dumps(d, separators=(",", ":"), ensure_ascii=False)
+    return [
+        ("compact-odd-values", compact(odd)),
+        ("framed-lf", compact(plain) + "\n"),
+        ("framed-crlf", compact(plain) + "\r\n"),
+        ("framed-lf-odd-values", compact(odd) + "\n"),
+        ("framed-crlf-odd-values", compact(odd) + "\r\n"),
+        ("pretty", json.dumps(plain, indent=2)),
+        ("pretty-odd-values", json.dumps(odd, indent=2, ensure_ascii=False)),
+        ("pretty-tabs-crlf", json.dumps(odd, indent="\t", ensure_ascii=False).replace("\n", "\r\n")),
+        ("default-separators-odd-values", json.dumps(odd, ensure_ascii=False)),
+    ]
+
+
+def run_raw(ctl: explorer.Ctl, cfg: Dict[str, Any]) -> Dict[str, Any]:
+    """One pre-serialised string between an optional typed message and a typed sentinel.  Whatever bytes the child gets
+    for the string must be ONE JSON document with the value of the string that was handed over (a document that was
+    already framed or spread over lines by the caller may arrive over several lines - that is the caller's doing)."""
+    from chuk_mcp.transports.stdio.stdio_client import stdio_client
+
+    by_name = {t[0]: t for t in _items()}
+    name, text = _raw_items()[cfg["item"]]
+    first = by_name["typed-notification"] if cfg["before"] else None
+    last = by_name["typed-request-noparams"]
+    loop = new_loop(horizon=30)
+    q = seams.Quiescence(loop)
+    proc = seams.FakeProcess()
+    info: Dict[str, Any] = {}
+
+    async def main():
+        with seams.patched_open_process(lambda cmd, kw: proc):
+            async with stdio_client(seams.stdio_params()) as (read, write):
+                for m in ([first[1]()] if first else []) + [text, last[1]()]:
+                    await write.send(m)
+                    if cfg.get("mode") == "step":
+                        await q.settle()
+                await q.settle()
+                await write.aclose()
+                await q.settle()
+                info["closed_after"] = proc.stdin.closed
+
+    status, val = loop.run_main(main())
+    errors = loop.collect_errors()
+    loop.abandon()
+    where = f"string={name} after-a-typed-message={bool(first)} mode={cfg.get('mode')}"
+    tag = {"part": "pre-serialised-strings", "string": name}
+    if status != "ok":
+        return {"outcome": status, "violations": [{"sig": {"class": "did-not-finish", **tag}, "msg": f"{where}: {status} {core.clean_repr(val)}"}]}
+    viol: List[dict] = []
+    data = bytes(proc.stdin.data)
+    lines = data.split(b"\n")
+    ok_frame = lines[-1] == b"" and len(lines) >= 3
+    body = b""
+    if ok_frame:
+        try:
+            head_ok = (not first) or strict_eq(json.loads(lines[0].decode("utf-8")), first[2])
+            tail_ok = strict_eq(json.loads(lines[-2].decode("utf-8")), last[2])
+        except Exception:
+            head_ok = tail_ok = False
+        body = b"\n".join(lines[(1 if first else 0):-2])
+        if not (head_ok and tail_ok):
+            viol.append({"sig": {"class": "neighbour-message-disturbed", **tag}, "msg": f"{where}: the typed messages around the string did not arrive as their own lines: {data[:200]!r}"})
+    else:
+        viol.append({"sig": {"class": "unterminated-line", **tag}, "msg": f"{where}: stdin {data[-60:]!r}"})
+    want = json.loads(text)
+    try:
+        got = json.loads(body.decode("utf-8"))
+        same = strict_eq(got, want)
+    except Exception as e:  # noqa: BLE001
+        got, same = repr(e), False
+    if ok_frame and not same:
+        viol.append({"sig": {"class": "content-changed", **tag},
+                     "msg": f"{where}: the child received {body[:300]!r}, which is not the document handed over ({text[:120]!r})"})
+    if "\n" not in text and "\r" not in text and ok_frame and body.count(b"\n") != 0:
+        viol.append({"sig": {"class": "line-count", **tag}, "msg": f"{where}: a one-line string arrived over {body.count(b'\n') + 1} lines"})
+    if not info.get("closed_after"):
+        viol.append({"sig": {"class": "stdin-not-closed", **tag}, "msg": f"{where}: write stream closed but the child's stdin was not"})
+    if errors:
+        viol.append({"sig": {"class": "loop-error", **tag}, "msg": f"{errors[:2]}"})
+    return {"outcome": f"{name}: lines-for-the-string={body.count(b'\n') + 1 if body else 0} same-value={same}", "violations": viol}
+
+
 def _family(n: str) -> str:
     return n.split("-")[0]
 
@@ -711,6 +815,16 @@ def run(tier: str, only=None) -> core.Result:
     scfgs = slow_configs(tier)
     out = explorer.explore(RUN_SLOW, scfgs, fidelity=True)
     sched.absorb(res, "slow-pipe", RUN_SLOW, out, scfgs)
+    # the child's stdout ends while it still reads its stdin
+    ser6 = [i for i, t in enumerate(_items()) if t[2] is not None][:6]
+    ecfgs = [{"seq": list(c), "mode": m, "stdout_eof_at": at} for L in (1, 2, 3 if tier != "quick" else 2)
+             for c in itertools.product(ser6, repeat=L) for at in range(L + 1) for m in ("burst", "step")]
+    ecfgs = [c for i, c in enumerate(ecfgs) if c not in ecfgs[:i]]
+    out = explorer.explore(RUN, ecfgs, fidelity=True)
+    sched.absorb(res, "child-stdout-ends-while-it-still-reads", RUN, out, ecfgs)
+    rcfgs = [{"item": i, "before": b, "mode": m} for i in range(len(_raw_items())) for b in (False, True) for m in ("burst", "step")]
+    out = explorer.explore(RUN_RAW, rcfgs, fidelity=True)
+    sched.absorb(res, "pre-serialised-strings-framed-pretty-odd-blanks", RUN_RAW, out, rcfgs)
     ucfgs = unserialisable_run_configs(tier)
     out = explorer.explore(RUN, ucfgs, fidelity=True)
     sched.absorb(res, "runs-of-unserialisable-items", RUN, out, ucfgs)
@@ -734,7 +848,10 @@ def run(tier: str, only=None) -> core.Result:
         "batch arriving before / between / after the writes); plus a full pipe: all sequences of <= "
         f"{3 if tier == 'quick' else 4} messages over typed request / typed notification / dict / pre-serialised string x the "
         "position of the message whose write takes the bytes and then keeps the writer waiting x wait in {1, 4.9, 5.1, 11 s, "
-        "forever} (virtual) x {burst, settle-after-each}; plus runs of k = 1.."
+        "forever} (virtual) x {burst, settle-after-each}; plus the child's stdout reaching end-of-file (child still alive) before "
+        "any / between / after the messages of sequences of <= 2 (thorough 3) serialisable items; plus pre-serialised strings "
+        "that are pre-framed (LF, CRLF), pretty-printed (spaces, tabs + CRLF) or carry runs of blanks, tabs, NBSP, U+3000, "
+        "U+2028/2029/0085 raw inside string values, alone and after a typed message; plus runs of k = 1.."
         f"{12 if tier == 'quick' else 40} unserialisable items of one kind (each of the kinds) or of the kinds in rotation, before / "
         "between / after valid messages; plus a pipe whose write raises (BrokenResourceError, OSError, RuntimeError) for k "
         "consecutive writes starting at the first or second message and works again afterwards; plus two connections alive "
@@ -752,6 +869,10 @@ def run(tier: str, only=None) -> core.Result:
         "full pipe: the scripted stdin records the bytes when send() is called and then suspends the caller (write + drain); a "
         "pipe that takes only part of a line is not modelled; when the pipe never drains only 'no duplicates, order kept, "
         "everything up to the slow message present' is required",
+        "pre-framed or pretty-printed strings: the library may pass them through as they are (several lines, the caller's "
+        "doing); judged is that the bytes between the neighbouring messages are one JSON document with the same value, and "
+        "that a string without line breaks stays one line",
+        "the child's stdout ending is modelled as end-of-file on the scripted stdout while the process has not exited",
         "pipe trouble: a message whose write raised may be lost; required are: every other message once and in order, every "
         "message attempted, stdin closed by (and not before) the close of the write stream",
         "two connections: the healthy connection is judged at the instant its write stream was closed (as in a solo run), "
